@@ -78,7 +78,8 @@ def gen_scripted(rng, style=None, n_ops=None, allow_then=True) -> dict:
     if "crit" in lim or lim == "all":
         p = rng.choice([0.0, 0.2, 0.5, 1.0])
         crit = [rng.random() < p for _ in range(rng.randint(0, rid + 1))]
-    aux = rng.choice([None, None, {"list": []}, {"list": [1, 2]}, {"list": [3]}, {"dict": [["a", 1], ["b", 2]]}, {"dict": []}])
+    aux = rng.choice([None, None, {"list": []}, {"list": [1, 2]}, {"list": [3, 1, 2]}, {"dict": [["a", 1], ["b", 2]]}, {"dict": []},
+                      {"dict": [["z_last", 1], ["a_first", 2], ["m", 3]]}, {"dict": [["b", 4], ["a", 2]]}])   # insertion order != sorted order
     case = dict(kind="scripted", style=style, n_ops=n_ops, n_qubits=n_qubits, max_generations=max_gen, max_evals=max_evals,
                 criterion=crit, init=rng.choice([None, None, 0, 3, 5, 6]), aux=aux, pop0=0, apps=apps, estimates=estimates)
     if crit is not None and rng.random() < 0.4:
@@ -691,15 +692,20 @@ def oracle_evqe_c05(setup, obs, extra) -> list:
         if ao not in (None, []):
             bad.append(("aux-not-of-best", f"no aux operators requested but aux_operators_evaluated={ao}"))
     else:
-        pairs = list(zip(aux, ao)) if isinstance(aux, list) and isinstance(ao, list) and len(aux) == len(ao) else (
-            [(aux[k], ao[k]) for k in aux] if isinstance(aux, dict) and isinstance(ao, dict) and list(aux) == list(ao) else None)
+        # list: value at position p belongs to the operator at position p; dict: value under name k belongs to the
+        # operator passed under name k (and the names come back in the caller's order)
+        pairs = [(p, op, v) for p, (op, v) in enumerate(zip(aux, ao))] if isinstance(aux, list) and isinstance(ao, list) and len(aux) == len(ao) else (
+            [(k, aux[k], ao[k]) for k in aux] if isinstance(aux, dict) and isinstance(ao, dict) and set(aux) == set(ao) else None)
         if pairs is None:
-            bad.append(("aux-shape", f"aux operators {type(aux).__name__} of {len(aux)} but values {ao!r}"))
+            bad.append(("aux-shape", f"aux operators {type(aux).__name__} {list(aux) if isinstance(aux, dict) else len(aux)} but values {ao!r}"))
         else:
-            for op, v in pairs:
+            for where, op, v in pairs:
                 w = _objective(setup, op, bound(res.best_individual))
                 if w is not None and abs(w - float(v)) > 1e-7:
-                    bad.append(("aux-not-of-best", f"aux value {float(v)} but the objective of the best individual for that operator is {w}"))
+                    bad.append(("aux-not-of-best", f"aux value {float(v)} at {where!r} but the objective of the best individual for the operator passed at {where!r} is {w}"))
+                    break
+            if isinstance(aux, dict) and list(aux) != list(ao):
+                bad.append(("aux-key-order", f"aux operators were passed as {list(aux)} but the values come back as {list(ao)}"))
     if res.initial_state_circuit is not init:
         bad.append(("initial-state-field", "result.initial_state_circuit is not the circuit that was passed in"))
     # per-evaluation alignment
@@ -858,7 +864,7 @@ def evqe(ctx, pid, setup, glits, kept, strict_multi):
         glits.append(g_case(case, obs))
         kept.append(replay)
     ctx.tally("evqe:" + setup.get("family", "evqe") + ":" + setup["evaluator"])
-    if setup["init"] in ("h0", "ry") and setup["aux"] in ("list", "dict"):
+    if setup["init"] in ("h0", "ry") and setup["aux"] in ("list", "dict", "dict3", "list3"):
         ctx.tally("evqe-assembly:noncommuting-init+aux-" + setup["aux"] + ":" + setup["evaluator"])
     if setup.get("penalty", 0.1) == 0 and (setup["tournament"] or setup.get("positive")):
         ctx.tally("evqe-plain-fitness:" + ("tournament" if setup["tournament"] else "roulette-positive"))
